@@ -38,6 +38,8 @@ def setup():
     if _ready[0]:
         return
     logging.disable(logging.CRITICAL)
+    import warnings
+    warnings.filterwarnings("ignore")
     from semantiva.registry import apply_profile, RegistryProfile, load_extensions
     apply_profile(RegistryProfile())
     load_extensions(["semantiva-examples"])
